@@ -7,6 +7,8 @@ package main
 // fields stay as generated and the model's text differs from the row.
 
 import (
+	"fmt"
+
 	"github.com/go-logfmt/logfmt"
 )
 
@@ -93,4 +95,53 @@ func influxFieldOrder(c *Case) {
 		}
 		row++
 	}
+}
+
+// linesRows: the number of rows every Influx line contributes (a message line one, any other line one per numeric field)
+func lineRows(l *ILine) int {
+	num := 0
+	for _, f := range l.Fields {
+		if string(f.Name) == "message" {
+			return 1
+		}
+		if f.Kind == "int" || f.Kind == "uint" || f.Kind == "float" {
+			num++
+		}
+	}
+	return num
+}
+
+// influxClock: one clock reading per LINE. A line without a timestamp is stamped with time.Now().Truncate(precision): the
+// reading is some instant of the request [T0, T1] whose truncation is the timestamp of the line's first row -- when there is
+// none (the stamp is not a truncated instant of the request) the reading is T0 and the model's row differs from the observed one.
+func influxClock(c *Case) string {
+	var ts []int64
+	for _, k := range c.Obs.Chunks {
+		ts = append(ts, k.Ts...)
+	}
+	p := c.Body.Precision
+	if p <= 0 {
+		p = 1
+	}
+	nows := make([]int64, 0, len(c.Body.Influx)+4)
+	row := 0
+	for li := range c.Body.Influx {
+		l := &c.Body.Influx[li]
+		now := c.Obs.T0
+		if l.NoTs && row < len(ts) {
+			t := ts[row] // a multiple of the precision; instants truncated to it: [t, t+p)
+			if t <= c.Obs.T1 && t+p > c.Obs.T0 {
+				now = t
+				if now < c.Obs.T0 {
+					now = c.Obs.T0
+				}
+			}
+		}
+		nows = append(nows, now)
+		row += lineRows(l)
+	}
+	for i := 0; i < 4; i++ {
+		nows = append(nows, c.Obs.T0)
+	}
+	return fmt.Sprintf("(CK %s %s %s)", cz(c.Obs.T0), cz(c.Obs.T1), czs(nows))
 }
